@@ -69,6 +69,11 @@ CLAIMED["C10"] = dict(
     text="Random head-marked trees with unary nodes at the root, in the middle and above tokens, one-token sentences, continuous (top-down, in-order) or discontinuous with nested gaps (gap) are given to transitions.topdown / inorder / gap. Hand-written automata that see only the sentence and the action strings execute the sequence; every token must be consumed, one item must remain, and it must equal the input tree in labels, dominance, unary nodes, root and head sides of binary nodes. The returned sentence, the line written by transitionoutput.plain (words or POS) and the file written by `treetools transitions` on an export file from the independent encoder are checked the same way.",
     note="Trusted: the automata in checks/C10.py. Conventions pinned by the golden tests are parameters of the replayers (see ASSUMPTIONS in the evidence): a sequence is accepted if one documented reading replays it. Head flags of only children are not compared (UNARY carries no side).",
     ref="DESIGN.md section 2, C10")
+CLAIMED["C11"] = dict(
+    tech="Hypothesis trees with punctuation/trace tokens at every position + generated terminal files and parameter sets vs. a list-based reference of each documented edit with pruning on the set model",
+    text="punctuation_delete, ptb_delete_traces (keep, keepall, keepcoindex, slash), insert_terminals, substitute_terminals (valid, zero, out-of-range, duplicate indices, foreign sentence ids, with/without quiet; fresh file name per case), trees.delete_terminal and filter_by_length are applied to random trees in which punctuation and traces occur first, last, as only child of unary chains and as sole content of constituents. The result must be the parentless root of a well-formed tree equal to the reference: untouched tokens keep word, POS and order, numbering 1..n, token-less constituents pruned, inserted tokens at the requested final positions under the root, out-of-range requests ignored, duplicates rejected with ValueError, deleted punctuation reported with original positions, no gap index and (unless keepcoindex) no co-index on any constituent label, kept traces swapped as documented.",
+    note="Trusted: reference edits in checks/C11.py. insert_terminals inserts AT the index (pinned by the repository's test). With slash only token-level claims are checked. Labels and trace words are built from parts so expected labels are known by construction.",
+    ref="DESIGN.md section 2, C11")
 PENDING_REASON = "check not built yet in this round (planned, see DESIGN.md section 6); not claimed until it is quiet on the unchanged tree"
 
 
